@@ -291,8 +291,9 @@ def compare_history(hidx, ops, c_lines, s_lines, m_lines, crash, opts):
             diffs.append(Diff("refusal-swallowed", hidx, i, op, f"refused={mf['r']} but {cs[0][:60]}", "L2"))
         if st == "1" and mf["r"] == 0 and "absurd=" not in mf["rest"]:
             diffs.append(Diff("spurious-alloc-error", hidx, i, op, cs[0][:80], "L2"))
-        if opname == "destroy" and mf["live"] != 0 and not opts.get("multi", False):
-            diffs.append(Diff("leak", hidx, i, op, f"live={mf['live']} after destroy", "L2"))
+        ll = re.search(r"llive=(\d+)", mf["rest"])
+        if opname == "destroy" and (mf["live"] != 0 or (ll and int(ll.group(1)) != 0)) and not opts.get("multi", False):
+            diffs.append(Diff("leak", hidx, i, op, f"live={mf['live']} {ll.group(0) if ll else ''} after destroy", "L2"))
         # ---- L1: C vs spec
         if ss is not None and not s_lines[i].startswith("S ?"):
             if norm_obs(cs[0]) != norm_obs(ss[0]):
